@@ -540,12 +540,41 @@ Proof.
       unfold set_ready. destruct (rstate_eqb _ _); cbn [fst table setc set_table]; now apply Hreg.
 Qed.
 
+(* the same, the queued messages of h being dropped as well (stream reset completed) *)
+Lemma cinv_close_at_purge s h t' : (h < length (chans s))%nat -> cinv s ->
+  Forall (fun kv : Z * nat => (snd kv < length (chans s))%nat) t' ->
+  (forall h' i, h' <> h -> (h' < length (chans s))%nat -> ch_state (getc s h') <> Closed ->
+                ch_id (getc s h') = Some i -> tget t' i = Some h') ->
+  cinv (fst (set_ready (set_queue (set_table s t') (filter (fun it => negb (Nat.eqb (fst (fst it)) h)) (queue s))) h Closed)).
+Proof.
+  intros Hh (W & B & T) Ht' Hreg.
+  set (s2 := set_queue (set_table s t') (filter (fun it => negb (Nat.eqb (fst (fst it)) h)) (queue s))).
+  assert (W2 : wf s2).
+  { destruct W as [_ Bq]. split; [exact Ht'|]. cbn [queue s2 set_queue chans set_table]. rewrite Forall_forall in *.
+    intros x Hx. apply filter_In in Hx as [Hx _]. now apply Bq. }
+  split; [|split].
+  - pose proof (set_ready_good s2 h Closed Hh) as G.
+    refine (proj1 (G _ W2)). destruct (ch_state _); cbn; lia.
+  - intros h' Hl Hst. rewrite set_ready_length in Hl. rewrite set_ready_buf, set_ready_queue.
+    destruct (Nat.eq_dec h' h) as [->|Hne].
+    + exfalso. apply Hst. now apply closed_after_set_ready.
+    + rewrite set_ready_state_other in Hst by congruence.
+      cbn [queue s2 set_queue]. rewrite qsum_filter_other by exact Hne. now apply B.
+  - intros h' i Hl Hst Hid. rewrite set_ready_length in Hl.
+    destruct (Nat.eq_dec h' h) as [->|Hne].
+    + exfalso. apply Hst. now apply closed_after_set_ready.
+    + rewrite set_ready_state_other in Hst by congruence.
+      rewrite getc_set_ready in Hid. destruct (Nat.eqb_spec h h'); [congruence|]. cbn [andb] in Hid.
+      unfold set_ready. destruct (rstate_eqb _ _); cbn [fst table setc set_table set_queue s2]; now apply Hreg.
+Qed.
+
 Lemma cinv_chan_closed s i : cinv s -> cinv (fst (chan_closed s i)) /\ no3 (snd (chan_closed s i)).
 Proof.
   intros C. unfold chan_closed. destruct (tget (table s) i) as [h|] eqn:Et; [|split; [exact C|apply no3_nil]].
   split; [|apply set_ready_no3].
   assert (Hh : (h < length (chans s))%nat) by (destruct C as [[A _] _]; eapply tget_handles; eauto).
-  apply cinv_close_at; auto.
+  change (queue (set_table s (tdel (table s) i))) with (queue s).
+  apply cinv_close_at_purge; auto.
   - apply tdel_handles. destruct C as [[A _] _]. exact A.
   - intros h' i' Hne Hl Hst Hid. rewrite tget_tdel. destruct C as (_ & _ & T).
     destruct (Z.eqb_spec i' i) as [->|Hn]; [|now apply T].
@@ -907,11 +936,11 @@ Proof.
   - apply pres_close_generic; auto.
 Qed.
 
-Lemma pres_chan_closed s i : pres s (fst (chan_closed s i)).
+Lemma pres_chan_closed s i : wf s -> pres s (fst (chan_closed s i)).
 Proof.
-  unfold chan_closed. destruct (tget (table s) i) as [h|]; [|apply pres_refl].
-  eapply pres_trans; [|apply pres_set_ready; destruct (ch_state _); cbn; lia].
-  apply pres_frame; auto.
+  intros W. unfold chan_closed. destruct (tget (table s) i) as [h|] eqn:Et; [|apply pres_refl].
+  assert (Hh : (h < length (chans s))%nat) by (destruct W as [A _]; eapply tget_handles; eauto).
+  apply pres_close_generic; auto.
 Qed.
 
 Lemma pres_close_body s h hs : (h < length (chans s))%nat -> rank (ch_state (getc s h)) <= 2 -> pres s (fst (close_body s h hs)).
@@ -956,11 +985,11 @@ Proof.
   rewrite (pair_eta (reset_streams (fst p) strs)). cbn [fst]. split; [eapply pres_trans; eauto|exact W2].
 Qed.
 
-Lemma pres_closed_streams : forall strs s, pres s (fst (closed_streams s strs)).
+Lemma pres_closed_streams : forall strs s, wf s -> pres s (fst (closed_streams s strs)).
 Proof.
-  induction strs as [|i strs IH]; intros s; cbn [closed_streams]; [apply pres_refl|].
+  induction strs as [|i strs IH]; intros s W; cbn [closed_streams]; [apply pres_refl|].
   rewrite (pair_eta (chan_closed s i)). rewrite (pair_eta (closed_streams (fst (chan_closed s i)) strs)). cbn [fst].
-  eapply pres_trans; [apply pres_chan_closed|apply IH].
+  eapply pres_trans; [apply pres_chan_closed; exact W|apply IH]. exact (proj1 (chan_closed_good s i W)).
 Qed.
 
 Lemma pres_open_negotiated : forall t s, pres s (fst (open_negotiated s t)).
@@ -994,8 +1023,11 @@ Proof.
   unfold chan_closed. destruct (tget (table s) i) eqn:E; cbn [fst]; [|now rewrite tdel_absent].
   now rewrite set_ready_table.
 Qed.
-Lemma chan_closed_queue s i : queue (fst (chan_closed s i)) = queue s.
-Proof. unfold chan_closed. destruct (tget (table s) i); [|reflexivity]. now rewrite set_ready_queue. Qed.
+Lemma chan_closed_queue s i : forall it, In it (queue (fst (chan_closed s i))) -> In it (queue s).
+Proof.
+  unfold chan_closed. destruct (tget (table s) i); [|auto]. rewrite set_ready_queue. cbn [queue set_queue set_table].
+  intros it Hin. apply filter_In in Hin. tauto.
+Qed.
 
 Lemma closed_streams_table : forall ks s, table (fst (closed_streams s ks)) = fold_left tdel ks (table s).
 Proof.
@@ -1003,11 +1035,11 @@ Proof.
   rewrite (pair_eta (chan_closed s k)). rewrite (pair_eta (closed_streams (fst (chan_closed s k)) ks)). cbn [fst].
   now rewrite IH, chan_closed_table.
 Qed.
-Lemma closed_streams_queue : forall ks s, queue (fst (closed_streams s ks)) = queue s.
+Lemma closed_streams_queue : forall ks s it, In it (queue (fst (closed_streams s ks))) -> In it (queue s).
 Proof.
-  induction ks as [|k ks IH]; intros s; cbn [closed_streams]; [reflexivity|].
+  induction ks as [|k ks IH]; intros s it; cbn [closed_streams]; [auto|].
   rewrite (pair_eta (chan_closed s k)). rewrite (pair_eta (closed_streams (fst (chan_closed s k)) ks)). cbn [fst].
-  now rewrite IH, chan_closed_queue.
+  intros Hin. apply (chan_closed_queue s k). now apply IH.
 Qed.
 
 Lemma in_tdel t k kv : In kv (tdel t k) -> In kv t /\ fst kv <> k.
@@ -1076,7 +1108,7 @@ Proof.
   assert (C0 : cinv s0) by (eapply cinv_same; [| | |exact C]; reflexivity).
   assert (T0 : t3 s0) by (eapply t3_pres; [exact T3|apply pres_frame; auto]).
   destruct (cinv_closed_streams (map fst (table s0)) s0 C0) as [C1 N1].
-  pose proof (t3_pres _ _ T0 (pres_closed_streams (map fst (table s0)) s0)) as T1.
+  pose proof (t3_pres _ _ T0 (pres_closed_streams (map fst (table s0)) s0 (proj1 C0))) as T1.
   rewrite (pair_eta (closed_streams s0 (map fst (table s0)))).
   set (s1 := fst (closed_streams s0 (map fst (table s0)))) in *.
   assert (Et1 : table s1 = []).
@@ -1184,7 +1216,7 @@ Proof.
     set (s1 := fst (closed_streams s strs)).
     set (s2 := mkSt (established s1) (dc_id s1) (chans s1) (table s1) (queue s1) (rq_queue s1) None (rq_req_seq s1) (rq_resp_seq s1)).
     rewrite (pair_eta (transmit_reconfig s2)). cbn [fst].
-    eapply t3_pres; [exact T3|]. apply (pres_trans s s1); [apply pres_closed_streams|].
+    eapply t3_pres; [exact T3|]. apply (pres_trans s s1); [apply pres_closed_streams; exact (proj1 C)|].
     apply (pres_trans s1 s2); [|apply pres_transmit_reconfig]. apply pres_frame; auto.
   - cbn [fst snd]. split; [split|apply no3_nil].
     + eapply cinv_same; [| | |exact C]; reflexivity.
